@@ -25,7 +25,7 @@ _m("C02", "Generated search over run-structured sequences (run lists pinned arou
    "property-based testing (rapid) against an independent reference model + exact DP table derivation + boundary sweep")
 _m("C03", "Generated search over sequences x k, d, direction incl. walks forced to every order of maximum excursion and tiles that make the derivative/autocorrelation degenerate, compared with naive references. Exploration level.",
    "property-based testing (rapid) against an independent reference model + parameter sweep")
-_m("C04", "Exhaustive enumeration of all 2^m one-block inputs (m <= 12 quick, <= 16 thorough) plus generated LFSR / hostile blocks at m = 500/1000/5000, matrices of constructed rank, Maurer inputs with restricted initialisation alphabets; a panic is a violation; values compared with bitset GF(2) rank, textbook Berlekamp-Massey and a map-based Maurer. "
+_m("C04", "Exhaustive enumeration of all 2^m one-block inputs (m <= 12 quick, <= 18 thorough) plus generated LFSR / hostile blocks at m = 500/1000/5000, matrices of constructed rank, Maurer inputs with restricted initialisation alphabets; a panic is a violation; values compared with bitset GF(2) rank, textbook Berlekamp-Massey and a map-based Maurer. "
           "Thorough adds native go fuzz targets with the same differential oracle. Exploration (exhaustive for small m).",
    "property-based testing (rapid) + exhaustive small-block enumeration + native go fuzzing, differential against reference implementations")
 _m("C05", "Generated search over lengths (every n <= 64, powers of two, 2^k+1, arbitrary), spectral shapes and GOMAXPROCS (incl. counts that are not powers of two), compared with a naive O(N^2) DFT / independent recursive FFT; bins within 1e-9 of the threshold may count either way, exactly as the property allows. The thorough tier also runs n = 10^8 and 2^27 against a closed-form spectrum. Exploration level.",
